@@ -7,6 +7,7 @@
 (*                {schema, optional, UUID, datetime}                       *)
 (*   eq           the evaluated schema == the original, and not !=         *)
 (*   same_repr    repr(evaluated) is the same text                         *)
+(*   denoted      the schema the text evaluates to, abstracted (<<>> if not)  *)
 (*   parsed / expr  the text evaluated with a recording facade instead of  *)
 (*                the real DSL: the expression tree the text denotes       *)
 (***************************************************************************)
@@ -21,6 +22,9 @@ Verdict(e) ==
   ELSE IF e.eval_exc # "" THEN "FAIL:text_does_not_evaluate:" \o Sig(e)
   ELSE IF ~e.eq THEN "FAIL:rebuilt_schema_not_equal:" \o Sig(e)
   ELSE IF ~e.same_repr THEN "FAIL:rebuilt_schema_prints_differently:" \o Sig(e)
+  \* "no declared constraint ... is lost or altered in the text": what the text evaluates to, read
+  \* back through the public props, is the declaration (raw: real-float cases with a stand-in schema)
+  ELSE IF ~e.raw /\ e.denoted # <<>> /\ e.denoted[1] # e.s THEN "FAIL:text_denotes_another_declaration:" \o Sig(e)
   ELSE "OK"
 
 \* the model of the printer predicts the calls the text makes
